@@ -134,7 +134,7 @@ class MonitorHook:
         me = self.self_getter(eng)
         if me is None or obj.oid != me.oid:
             return
-        if eng.cur_func.split(".")[-1] == "__init__":
+        if eng.cur_func.split("@")[0].split(".")[-1] == "__init__":
             return
         fname = eng.cur_func.split("@")[0].split(".")[-1]
         for sp in self.specs:
